@@ -80,6 +80,9 @@ def mask_grid_dataset(
     # Coordinates are handled differently. They have been trimmed already, but
     # shouldn't be masked. They are combined in to one dataset and saved as-is
     coords_path = work_path / "__coords__.nc"
+    while coords_path in mfdataset_names:
+        # A data variable may already be using this file name
+        coords_path = coords_path.with_name("_" + coords_path.name)
     mfdataset_names.append(coords_path)
     utils.to_netcdf_with_fixes(xarray.Dataset(coords=dataset.coords), coords_path)
 
